@@ -103,7 +103,10 @@ def outage (d : DS) (mode : String) (u pid : Nat) (pidNew : Option Nat) : DS × 
     let writable := mode != "down"
     let auth := ["login=ok"] ++ (if hasTOTP pid then ["authTOTP=ok"] else []) ++
       (if hasU2F pid then ["u2fSignReq=ok", "waAuthBegin=ok", "waAuthFinish=ok"] else [])
-    let muts := mutatingRoutes.map fun r => s!"{r.1}={effectToken (classOf r.2) writable}"
+    -- addUserHandler answers 400 "User exists" before its fromCache test when the (cached) row exists
+    let addExists := (d2.st.cache.users (1000 + u)).isSome
+    let muts := mutatingRoutes.map fun r =>
+      if r.1 == "addUser" && addExists then "addUser=400" else s!"{r.1}={effectToken (classOf r.2) writable}"
     -- writes hidden behind routes that keep answering: login (self-service bootstrap OTP),
     -- TOTP verification (counter), WebAuthn assertion (counter)
     let hidden := ["trySelfServiceGenerateBootstrapOTP"] ++
@@ -249,6 +252,7 @@ def judge : List String → String
       match t.splitOn "=" with
       | [name, v] =>
         if name == "deleteUser" then !(v == "failed" || (mode != "down" && v == "ok"))
+        else if name == "addUser" then !(v == "refused" || v == "400")
         else if (mutatingRoutes.map (·.1)).contains name then v != "refused"
         else if ["login", "authTOTP", "u2fSignReq", "waAuthBegin", "waAuthFinish"].contains name then v != "ok"
         else true
